@@ -2997,7 +2997,9 @@ PIP_Solution_Node::solve(const PIP_Problem& pip,
             switch (sign_i) {
             case ZERO:
               if (product > 0) {
-                sign_i = NEGATIVE;
+                // Without a negative constant term the row is zero when
+                // the parameters are zero: let row_sign() decide.
+                sign_i = (j.index() == 0) ? NEGATIVE : MIXED;
               }
               else if (product < 0) {
                 sign_i = POSITIVE;
